@@ -29,7 +29,11 @@ TEMPLATES = {
     "K": "Block: k{i}", "Wa": "Watch: X > 1", "Al": "Alarm: X > 1", "MA": "Macro: A", "MB": "Macro: B",
     "Bs": "Base: s", "Bm": "Base: min", "BL": "Base: L", "Si": "Simulate: X = 5", "So": "Simulate off: X",
     "Boom": "Boom: 2", "Bogus": "Bogus",
+    "SiT": "Simulate: Temp = 5 degC", "SoT": "Simulate off: Temp",      # simulation with a unit (C16/C36)
+    # C10/C11: condition on the hardware-fed tag In1, short variants
+    "WaI": "Watch: In1 > 1", "SiI": "Simulate: In1 = 0", "L2": "Long: 2", "W1": "Wait: 0.1s",
 }
+OPENERS.add("WaI")
 
 Tree = tuple  # (kind, (children...))
 
